@@ -9,12 +9,119 @@ from vf.unit import Unit, Fragment, AnchorLost
 from .common import HEADER, FOOTER, contract, extract_struct, extract_struct_priv
 
 INTERP = None  # filled from u3
+ABS = r"""
+// ---- abstract view of the builder state (what the readers of unit u2 look at: sequences and maps, no capacities) ----
+pub struct AMembers<'s> { pub all: Seq<MemberMapping<'s>>, pub by: Map<&'s str, Seq<MemberMapping<'s>>> }
+pub struct AClass<'s> { pub original: &'s str, pub obfuscated: &'s str, pub file_name: Option<&'s str>, pub members: Map<&'s str, AMembers<'s>> }
+pub struct AState<'s> { pub done: Map<&'s str, AClass<'s>>, pub cur: AClass<'s>, pub seen: Set<(&'s str, &'s str, &'s str)> }
+pub open spec fn abs_members<'s>(m: ClassMembers<'s>) -> AMembers<'s> {
+    AMembers { all: m.all_mappings@, by: m.mappings_by_params@.map_values(|v: Vec<MemberMapping<'s>>| v@) }
+}
+pub open spec fn abs_class<'s>(c: ClassMapping<'s>) -> AClass<'s> {
+    AClass { original: c.original, obfuscated: c.obfuscated, file_name: c.file_name, members: c.members@.map_values(|m: ClassMembers<'s>| abs_members(m)) }
+}
+pub open spec fn abs_classes<'s>(cs: Map<&'s str, ClassMapping<'s>>) -> Map<&'s str, AClass<'s>> { cs.map_values(|c: ClassMapping<'s>| abs_class(c)) }
+pub open spec fn no_members<'s>() -> AMembers<'s> { AMembers { all: Seq::empty(), by: Map::empty() } }
+pub open spec fn members_of<'s>(c: AClass<'s>, k: &'s str) -> AMembers<'s> { if c.members.contains_key(k) { c.members[k] } else { no_members() } }
+pub open spec fn by_of<'s>(m: AMembers<'s>, a: &'s str) -> Seq<MemberMapping<'s>> { if m.by.contains_key(a) { m.by[a] } else { Seq::empty() } }
+// what one Method record does to the class being built (C01: stored in file order; C03: by-params gets the first occurrence of
+// (name, args, original) among the records that are not inlined callees)
+pub open spec fn method_step<'s>(cur: AClass<'s>, seen: Set<(&'s str, &'s str, &'s str)>, init: bool, lm: Option<LineMapping>, obfuscated: &'s str, original: &'s str,
+        original_class: Option<&'s str>, arguments: &'s str, next: Option<&ProguardRecord<'s>>) -> AClass<'s> {
+    let e = stored_entry(lm, original_class, original, cur.file_name);
+    let old = members_of(cur, obfuscated);
+    let fresh = init && !is_inlined_callee(lm, next) && !seen.contains((obfuscated, arguments, original));
+    let by = if fresh { old.by.insert(arguments, by_of(old, arguments).push(e)) } else { old.by };
+    AClass { members: cur.members.insert(obfuscated, AMembers { all: old.all.push(e), by: by }), ..cur }
+}
+pub open spec fn method_seen<'s>(seen: Set<(&'s str, &'s str, &'s str)>, init: bool, lm: Option<LineMapping>, obfuscated: &'s str, original: &'s str,
+        arguments: &'s str, next: Option<&ProguardRecord<'s>>) -> Set<(&'s str, &'s str, &'s str)> {
+    if init && !is_inlined_callee(lm, next) { seen.insert((obfuscated, arguments, original)) } else { seen }
+}
+pub open spec fn flush<'s>(done: Map<&'s str, AClass<'s>>, cur: AClass<'s>) -> Map<&'s str, AClass<'s>> {
+    if cur.original@.len() > 0 { done.insert(cur.obfuscated, cur) } else { done }
+}
+pub open spec fn astep<'s>(s: AState<'s>, init: bool, rec: ProguardRecord<'s>, next: Option<&ProguardRecord<'s>>) -> AState<'s> {
+    match rec {
+        ProguardRecord::Header { key, value } => AState { cur: AClass { file_name: if key@ == "sourceFile"@ { value } else { s.cur.file_name }, ..s.cur }, ..s },
+        ProguardRecord::Class { original, obfuscated } => AState {
+            done: flush(s.done, s.cur),
+            cur: AClass { original: original, obfuscated: obfuscated, file_name: None, members: Map::empty() },
+            seen: Set::empty(),
+        },
+        ProguardRecord::Method { ty, original, obfuscated, arguments, original_class, line_mapping } => AState {
+            cur: method_step(s.cur, s.seen, init, line_mapping, obfuscated, original, original_class, arguments, next),
+            seen: method_seen(s.seen, init, line_mapping, obfuscated, original, arguments, next),
+            ..s
+        },
+        _ => s,
+    }
+}
+pub open spec fn start_state<'s>() -> AState<'s> {
+    AState { done: Map::empty(), cur: AClass { original: "", obfuscated: "", file_name: None, members: Map::empty() }, seen: Set::empty() }
+}
+pub open spec fn next_of<'s>(recs: Seq<ProguardRecord<'s>>, n: int) -> Option<&ProguardRecord<'s>> { if 0 <= n < recs.len() { Some(&recs[n]) } else { None } }
+// the builder state after the first n records
+pub open spec fn run<'s>(recs: Seq<ProguardRecord<'s>>, init: bool, n: int) -> AState<'s>
+    decreases n
+{
+    if n <= 0 { start_state() } else { astep(run(recs, init, n - 1), init, recs[n - 1], next_of(recs, n)) }
+}
+// the mapper that the record stream denotes
+pub open spec fn built<'s>(recs: Seq<ProguardRecord<'s>>, init: bool) -> Map<&'s str, AClass<'s>> {
+    let s = run(recs, init, recs.len() as int);
+    flush(s.done, s.cur)
+}
+pub open spec fn mbp_of<'s>(m: Map<&'s str, ClassMembers<'s>>, k: &'s str) -> Map<&'s str, Vec<MemberMapping<'s>>> {
+    if m.contains_key(k) { m[k].mappings_by_params@ } else { Map::empty() }
+}
+// from what the HashMap shims say about the concrete maps to one step of the abstract builder
+pub proof fn lemma_method_arm_abs<'s>(c0: ClassMapping<'s>, c1: ClassMapping<'s>, m1: ClassMembers<'s>, v1: Vec<MemberMapping<'s>>,
+        obf: &'s str, args: &'s str, e: MemberMapping<'s>, fresh: bool)
+    requires
+        c1.original == c0.original, c1.obfuscated == c0.obfuscated, c1.file_name == c0.file_name,
+        c1.members@ == c0.members@.insert(obf, m1),
+        m1.all_mappings@ == seq_of(c0.members@, obf).push(e),
+        fresh ==> m1.mappings_by_params@ == mbp_of(c0.members@, obf).insert(args, v1) && v1@ == bp_of(c0.members@, obf, args).push(e),
+        !fresh ==> m1.mappings_by_params@ == mbp_of(c0.members@, obf),
+    ensures
+        abs_class(c1) == (AClass { members: abs_class(c0).members.insert(obf, AMembers { all: members_of(abs_class(c0), obf).all.push(e),
+             by: if fresh { members_of(abs_class(c0), obf).by.insert(args, by_of(members_of(abs_class(c0), obf), args).push(e)) } else { members_of(abs_class(c0), obf).by } }), ..abs_class(c0) }),
+{
+    let g = |v: Vec<MemberMapping<'s>>| v@;
+    let f = |m: ClassMembers<'s>| abs_members(m);
+    let a0 = abs_class(c0);
+    let old = members_of(a0, obf);
+    let mbp0 = mbp_of(c0.members@, obf);
+    assert(old.by =~= mbp0.map_values(g));
+    assert(old.all == seq_of(c0.members@, obf));
+    assert(by_of(old, args) == bp_of(c0.members@, obf, args));
+    if fresh {
+        assert(mbp0.insert(args, v1).map_values(g) =~= mbp0.map_values(g).insert(args, v1@));
+    }
+    assert(abs_class(c1).members =~= a0.members.insert(obf, abs_members(m1)));
+}
+pub proof fn lemma_abs_insert<'s>(cs: Map<&'s str, ClassMapping<'s>>, k: &'s str, c: ClassMapping<'s>)
+    ensures abs_classes(cs.insert(k, c)) == abs_classes(cs).insert(k, abs_class(c)),
+{ assert(abs_classes(cs.insert(k, c)) =~= abs_classes(cs).insert(k, abs_class(c))); }
+pub proof fn lemma_abs_empty<'s>()
+    ensures abs_classes(Map::<&'s str, ClassMapping<'s>>::empty()) == Map::<&'s str, AClass<'s>>::empty(),
+{ assert(abs_classes(Map::<&'s str, ClassMapping<'s>>::empty()) =~= Map::<&'s str, AClass<'s>>::empty()); }
+pub proof fn lemma_abs_class_empty<'s>(c: ClassMapping<'s>)
+    requires c.members@ == Map::<&'s str, ClassMembers<'s>>::empty(),
+    ensures abs_class(c).members == Map::<&'s str, AMembers<'s>>::empty(),
+{ assert(abs_class(c).members =~= Map::<&'s str, AMembers<'s>>::empty()); }
+"""
 
 
-def build():
+def build(whole=False):
     from . import u3_interpretation
-    u = Unit("u6_mapper_step")
-    u.raw(HEADER, "header")
+    u = Unit("u13_mapper_builder" if whole else "u6_mapper_step")
+    OUTSIDE = """// stand-in for `Peekable<FilterMap<ProguardRecordIter, fn(Result<..>) -> Option<..>>>`'s inner iterator (unit u13 only; never executed)
+pub struct OkRecords<'s>(std::marker::PhantomData<&'s ()>);
+impl<'s> Iterator for OkRecords<'s> { type Item = ProguardRecord<'s>; fn next(&mut self) -> Option<ProguardRecord<'s>> { unimplemented!() } }
+"""
+    u.raw(HEADER.replace("verus! {", OUTSIDE + "verus! {", 1) if whole else HEADER, "header")
     u.raw("use std::collections::{HashMap, HashSet};\nuse vstd::std_specs::hash::*;\n", "glue")
     u.raw(contract("std_specs.rs"), "std_specs")
     mg = u.source("src/mapping.rs")
@@ -75,7 +182,7 @@ pub open spec fn is_inlined_callee(lm: Option<LineMapping>, next: Option<&Progua
         _ => false,
     }
 }
-""", "model")
+""" + ABS, "model")
 
     cf = mp.impl_fn(r"impl<'s> ProguardMapper<'s>", "create_proguard_mapper")
     # the region is the body of the `ProguardRecord::Method { .. } => { .. }` arm
@@ -85,14 +192,15 @@ pub open spec fn is_inlined_callee(lm: Option<LineMapping>, next: Option<&Progua
     r.contracted = True
     r.props_all = ["C01", "C02", "C03"]
     r.props_safety = ["C13"]
-    r.replace_all_re(r"\bcontinue;", "return;", "R10", why="the region is the rest of the loop body: `continue` == return from the region", min_count=0)
+    ABSP = "proof { let ghost fresh_ = initialize_param_mapping && !is_inlined_callee(line_mapping, next) && !seen0.contains((obfuscated, arguments, original)); let ghost m1_ = class.members@[obfuscated]; lemma_method_arm_abs(class0, *class, m1_, if fresh_ { m1_.mappings_by_params@[arguments] } else { arbitrary() }, obfuscated, arguments, stored_entry(line_mapping, original_class, original, file0), fresh_); }"
+    r.replace_all_re(r"\bcontinue;", ABSP + " return;", "R10", why="the region is the rest of the loop body: `continue` == return from the region", min_count=0)
     r.replace_all_re(r"records\.peek\(\)", "next", "R5", why="unreachable iterator state `records.peek()` becomes a parameter of the region", min_count=1)
     r.replace_call("class .members .entry(obfuscated) .or_insert_with", "shim_members_entry(&mut class.members, obfuscated)", "R2",
                    why="HashMap entry API behind a shim (assumed contract: existing value or a fresh empty ClassMembers)")
     r.replace_call("members .mappings_by_params .entry(arguments) .or_insert_with", "shim_by_params_entry(&mut members.mappings_by_params, arguments)", "R2")
     for occ, (ptype, rtype) in enumerate([("&LineMapping", "(usize, usize)"), ("LineMapping", "(usize, Option<usize>)")], 1):
         r.closure("|line_mapping|", occ=occ, params="|line_mapping: %s|" % ptype, ret="r: %s" % rtype, spec="ensures r == ({body})")
-    r.insert_at(0, "proof { axiom_key_models(); }\n        broadcast use group_hash_axioms;\n        let ghost file0 = class.file_name;\n        ")
+    r.insert_at(0, "proof { axiom_key_models(); }\n        broadcast use group_hash_axioms;\n        let ghost file0 = class.file_name; let ghost class0 = *class; let ghost seen0 = unique_methods@;\n        ")
     u.emit(r, prefix="""fn region_mapper_method_arm<'s>(initialize_param_mapping: bool, line_mapping: Option<LineMapping>, class: &mut ClassMapping<'s>,
         obfuscated: &'s str, original: &'s str, original_class: Option<&'s str>, arguments: &'s str,
         unique_methods: &mut HashSet<(&'s str, &'s str, &'s str)>, next: Option<&ProguardRecord<'s>>)
@@ -107,8 +215,10 @@ pub open spec fn is_inlined_callee(lm: Option<LineMapping>, next: Option<&Progua
             == (if initialize_param_mapping && !is_inlined_callee(line_mapping, next) { old(unique_methods)@.insert((obfuscated, arguments, original)) } else { old(unique_methods)@ }),
         /*@L:other_methods_and_class_header_untouched:C01,C03*/ final(class).original == old(class).original && final(class).obfuscated == old(class).obfuscated
             && final(class).file_name == old(class).file_name && final(class).members@.remove(obfuscated) == old(class).members@.remove(obfuscated),
+        /*@L:method_record_is_one_step_of_the_abstract_builder:C01,C02,C03*/ abs_class(*final(class))
+            == method_step(abs_class(*old(class)), old(unique_methods)@, initialize_param_mapping, line_mapping, obfuscated, original, original_class, arguments, next),
 {
-""", suffix="\n}\n")
+""", suffix="\n        " + ABSP + "\n}\n")
     # ---------------- Class arm: finish the previous class, start a fresh one, reset the de-duplication set ----------------
     a2, b2 = cf.arm_body(r"ProguardRecord::Class\s*\{[^}]*\}")
     r2 = Fragment(u, cf.file, mp.src, cf.start + a2, cf.start + b2, "region", "class-arm")
@@ -143,23 +253,96 @@ pub open spec fn is_inlined_callee(lm: Option<LineMapping>, next: Option<&Progua
 """, suffix="\n}\n")
     # ---------------- final flush after the loop ----------------
     mfl = [m for m in re.finditer(r"if !class\.original\.is_empty\(\) \{", cf.orig)]
-    if len(mfl) < 2:
+    flush_found = len(mfl) >= 2
+    if not flush_found and not whole:
         raise AnchorLost("create_proguard_mapper: final flush (second `if !class.original.is_empty() {`) not found")
-    toks = cf._toks()
-    from vf.rustlex import match_close
-    i = next(ix for ix, t in enumerate(toks) if t[1] == mfl[-1].end() - 1)
-    fb = toks[match_close(cf.orig, toks, i)][2]
-    r4 = Fragment(u, cf.file, mp.src, cf.start + mfl[-1].start(), cf.start + fb, "region", "final-flush")
-    r4.qualname = "%s[final-flush]" % cf.qualname
-    r4.contracted = True
-    r4.props_all = ["C04", "C02"]
-    r4.props_safety = ["C13"]
-    r4.insert_at(0, "proof { axiom_key_models(); }\n        broadcast use group_hash_axioms;\n        ")
-    u.emit(r4, prefix="""fn region_mapper_final_flush<'s>(classes: &mut HashMap<&'s str, ClassMapping<'s>>, class: ClassMapping<'s>)
-    ensures
-        /*@L:last_class_is_stored_like_every_other_one_last_definition_wins:C04,C02*/ final(classes)@
-            == (if class.original@.len() > 0 { old(classes)@.insert(class.obfuscated, class) } else { old(classes)@ }),
-{
-""", suffix="\n}\n")
+    if flush_found:
+        toks = cf._toks()
+        from vf.rustlex import match_close
+        i = next(ix for ix, t in enumerate(toks) if t[1] == mfl[-1].end() - 1)
+        fb = toks[match_close(cf.orig, toks, i)][2]
+        r4 = Fragment(u, cf.file, mp.src, cf.start + mfl[-1].start(), cf.start + fb, "region", "final-flush")
+        r4.qualname = "%s[final-flush]" % cf.qualname
+        r4.contracted = True
+        r4.props_all = ["C04", "C02"]
+        r4.props_safety = ["C13"]
+        r4.insert_at(0, "proof { axiom_key_models(); }\n        broadcast use group_hash_axioms;\n        ")
+        u.emit(r4, prefix="""fn region_mapper_final_flush<'s>(classes: &mut HashMap<&'s str, ClassMapping<'s>>, class: ClassMapping<'s>)
+        ensures
+            /*@L:last_class_is_stored_like_every_other_one_last_definition_wins:C04,C02*/ final(classes)@
+                == (if class.original@.len() > 0 { old(classes)@.insert(class.obfuscated, class) } else { old(classes)@ }),
+    {
+    """, suffix="\n}\n")
+
+    if whole:
+        # ---------------- U13: the whole builder: loop plumbing + the four regions above called in place ----------------
+        u.raw(contract("peek_model.rs"), "peek_model")
+        extract_struct_priv(u, mg, "ProguardMapping")
+        extract_struct_priv(u, mp, "ProguardMapper")
+        u.raw("""#[verifier::external_type_specification]
+#[verifier::external_body]
+pub struct ExOkRecords<'s>(OkRecords<'s>);
+// the Ok items of `mapping.iter()`, in file order (the stream itself is specified in unit u7: records(bytes))
+pub uninterp spec fn ok_records<'s>(m: ProguardMapping<'s>) -> Seq<ProguardRecord<'s>>;
+#[verifier::external_body]
+fn shim_ok_records<'s>(mapping: &ProguardMapping<'s>) -> (r: std::iter::Peekable<OkRecords<'s>>)
+    ensures pk_rest(r) == ok_records(*mapping),
+{ unimplemented!() /* body in /repo: mapping.iter().filter_map(Result::ok).peekable() */ }
+""", "glue")
+        IMPL = r"impl<'s> ProguardMapper<'s>"
+        u.raw(mp.impl_header(IMPL) + "{\n", "glue")
+        wf = mp.impl_fn(IMPL, "create_proguard_mapper")
+        wf.ret("ret")
+        wf.contracted = True
+        wf.props_all = ["C01", "C02", "C03", "C04"]
+        wf.props_safety = ["C13"]
+        # R11: every arm body / the final flush is replaced by a call of the region function verified above (same text, same contract)
+        wf.replace_span(ra, end, "region_mapper_method_arm(initialize_param_mapping, line_mapping, &mut class, obfuscated, original, original_class, arguments, &mut unique_methods, shim_peek(&mut records));",
+                        "R11", "arm body => call of the region function that was verified from this very text")
+        wf.replace_span(a2, b2, """let ghost classes0 = classes@; let ghost class0 = class;
+                    class = region_mapper_class_arm(&mut classes, class, &mut unique_methods, original, obfuscated);
+                    proof { lemma_abs_insert(classes0, class0.obfuscated, class0); lemma_abs_class_empty(class); }""", "R11")
+        wf.replace_span(a3, b3, "region_mapper_header_arm(&mut class, key, value);", "R11")
+        if flush_found:
+            wf.replace_span(mfl[-1].start(), fb, """let ghost classes0 = classes@; let ghost class0 = class;
+        region_mapper_final_flush(&mut classes, class);
+        proof { lemma_abs_insert(classes0, class0.obfuscated, class0); }""", "R11")
+        mr = re.search(r"let\s+mut\s+(\w+)\s*=\s*(\w+)\.iter\(\)\.filter_map\(Result::ok\)\.peekable\(\)\s*;", wf.orig)
+        if not mr:
+            raise AnchorLost("create_proguard_mapper: `let mut records = mapping.iter().filter_map(Result::ok).peekable();` not found")
+        recs, mpg = mr.group(1), mr.group(2)
+        wf.replace_span(mr.start(), mr.end(), "let mut %s = shim_ok_records(&%s);" % (recs, mpg), "R2",
+                        "Iterator::filter_map(Result::ok).peekable() behind a shim: ghost view = the Ok records still to come")
+        wf.insert_at(mr.end(), """
+        let ghost recs = ok_records(%s);
+        let ghost init = initialize_param_mapping;
+        let ghost mut n: int = 0;
+        proof { axiom_key_models(); lemma_abs_empty(); lemma_abs_class_empty(class); assert(recs.skip(0) == recs); }
+        broadcast use group_hash_axioms;""" % mpg)
+        lp = wf.loops()
+        if not lp or lp[0][0] != "while":
+            raise AnchorLost("create_proguard_mapper: record loop not found")
+
+        def nxt(expr):
+            if expr != "%s.next()" % recs:
+                raise AnchorLost("create_proguard_mapper: the loop does not pull from `%s.next()`" % recs)
+            return "shim_peek_next(&mut %s)" % recs
+        wf.while_let_to_loop(1, scrutinee_map=nxt, spec="""            invariant
+                0 <= n <= recs.len(), pk_rest(%s) == recs.skip(n), init == initialize_param_mapping,
+                /*@L:state_after_n_records_is_the_abstract_run:C01,C02,C03,C04*/ abs_classes(classes@) == run(recs, init, n).done
+                    && abs_class(class) == run(recs, init, n).cur && unique_methods@ == run(recs, init, n).seen,
+            ensures n == recs.len(),
+            decreases recs.len() - n,""" % recs,
+                             after_next="""            proof {
+                assert(record == recs[n]);
+                assert(recs.skip(n).drop_first() == recs.skip(n + 1));
+                n = n + 1;
+                assert(pk_rest(%s).len() > 0 ==> pk_rest(%s)[0] == recs[n]);
+            }
+""" % (recs, recs))
+        wf.contract("""    ensures
+        /*@L:mapper_is_the_abstract_build_of_the_record_stream:C01,C02,C03,C04*/ abs_classes(ret.classes@) == built(ok_records(mapping), initialize_param_mapping),""")
+        u.emit(wf)
+        u.raw("}\n", "glue")
     u.raw(FOOTER, "footer")
     return u
